@@ -133,29 +133,7 @@ Definition hist5 : list op :=
   [AddP 0 nW 14; AddM 0 nA 1; AddM 0 nB 2; AddM 1 nC 3; AddM 2 nC 4; AddP 3 nX 10; AddP 1 nX 11; AddP 2 nE 12; AddP 4 nX 13].
 Definition w5 : world := run hist5 (empty_world 5).
 
-Definition sh2 : shape := mkS [2%N] 1%N 2%N.
-(* Parameter p: value words (p+1, 1.0f), some gradient, one statistics tensor "m" *)
-Definition rec (p : pid) : param :=
-  mkP true sh2 (mkT sh2 [N.of_nat p + 1; 0x3f800000]%N) (mkT sh2 [9; 9]%N) [([109%N], mkT sh2 [N.of_nat p; 5]%N)].
-Definition blank : store := fun _ => mkP false scalar_shape (mkT scalar_shape []) (mkT scalar_shape []) [].
-
-Lemma wf_rec p : (N.of_nat p + 1 < 2 ^ 32)%N -> wf_param (rec p).
-Proof.
-  intros Hp.
-  assert (W : wf sh2).
-  { destruct (ShapeProofs.mk_shape_some [2%N] 1%N sh2) as [_ [_ W]]; [|vm_compute; reflexivity|vm_compute; reflexivity|exact W].
-    apply Forall_cons; [vm_compute; reflexivity|apply Forall_nil]. }
-  assert (Hp' : (N.of_nat p < 2 ^ 32)%N).
-  { apply N.lt_trans with (N.of_nat p + 1)%N; [apply N.lt_add_pos_r; reflexivity|exact Hp]. }
-  apply mkWfP; cbn [rec p_valid p_value p_shape p_stats]; try reflexivity.
-  - constructor; cbn [tshape twords]; [exact W|vm_compute; reflexivity| |vm_compute; reflexivity].
-    apply Forall_cons; [exact Hp|]. apply Forall_cons; [vm_compute; reflexivity|apply Forall_nil].
-  - apply Forall_cons; [|apply Forall_nil]. split; [vm_compute; reflexivity|].
-    constructor; cbn [snd tshape twords]; [exact W|vm_compute; reflexivity| |vm_compute; reflexivity].
-    apply Forall_cons; [exact Hp'|]. apply Forall_cons; [vm_compute; reflexivity|apply Forall_nil].
-  - cbn [map fst]. apply NoDup_cons; [intros []|apply NoDup_nil].
-Qed.
-
+(* [rec p], [blank], [wf_rec]: example records, defined in Registry/RegFile.v *)
 Example C13_registry_nonvacuous_worlds :
   reachable_world 4 w3 /\ reachable_world 5 w5 /\ wf_param (rec 0) /\ wf_param (rec 1) /\ wf_param (rec 2) /\
   map fst (model_file_entries rec w3 0) = [[nA; nC; nX]; [nA; nX]; [nB; nE]; [nB; nC; nX]; [nW]] /\
